@@ -287,6 +287,28 @@ theorem leftovers_removed_crash (steps : List Step) (s : St) (i : Nat) :
 theorem leftovers_removed_fail (steps handler : List Step) (s : St) (i : Nat) :
     NoLeftovers (recover (failAt i steps handler s)) := recover_noLeftovers _
 
+/-- the cache files of the messages `lost` disappear between two runs of the server (a cache that was reset or partly
+    lost: gluon keeps such rows and downloads the literal again) -/
+def loseFiles (s : St) (lost : List MsgId) : St := { s with store := lost.foldl Store.remove s.store }
+
+/-- **leftovers_removed_lost_cache**: start-up removes EVERY cache file without a message row, however many rows have
+    lost their cache file in the meantime - the clean-up compares the two id SETS, not their sizes: a left-over of an
+    unfinished operation is not "balanced out" by a message without a file. For every state, every set of lost files
+    and every interruption point. -/
+theorem leftovers_removed_lost_cache (s : St) (lost : List MsgId) :
+    NoLeftovers (recover (loseFiles s lost)) ∧
+    ∀ id, (recover (loseFiles s lost)).db.hasRow id = false → (recover (loseFiles s lost)).store id = none := by
+  refine ⟨recover_noLeftovers _, fun id h => ?_⟩
+  cases hs : (recover (loseFiles s lost)).store id with
+  | none => rfl
+  | some f =>
+    have := (recover_noLeftovers (loseFiles s lost)).1 id (by rw [hs]; simp)
+    rw [h] at this
+    cases this
+
+theorem leftovers_removed_lost_cache_crash (steps : List Step) (s : St) (i : Nat) (lost : List MsgId) :
+    NoLeftovers (recover (loseFiles (crashAfter i steps s) lost)) := recover_noLeftovers _
+
 /-- a second start-up changes nothing the client can see (recovery is not an operation of its own) -/
 theorem recover_abs (s : St) : abs (recover s) = abs s := recover_log s
 
@@ -332,6 +354,20 @@ theorem source_store_before_row :
     callsOf "State.getLiteral" = ["store.Get", "check.recovered", "store.Set"] ∧
     callsOf "Mailbox.Append" = ["call.AppendRegular", "call.actionCreateRecoveredMessage"] ∧
     callsOf "stateDBWrite" = ["db.Write", "db.Write", "call.QueueOrApplyStateUpdate"] := by
+  decide
+
+/-- the `return` statements of `fn` outside nested function literals: (guards, returned expressions) in source order -/
+def returnsOf (fn : String) : List (List String × String) :=
+  Gluon.Facts.crashStartupReturns.filterMap fun p => if p.1 == fn then some p.2 else none
+
+/-- the two start-up clean-up passes are UNCONDITIONAL in the source, as `recover` models them: the only way to leave
+    `deleteAllMessagesMarkedDeleted` / `cleanupStaleStoreData` before the `store.Delete` of the computed ids is a failed
+    read (`if err != nil { return err }`), and the `store.Delete` itself stands under no condition - no shortcut that
+    skips the comparison of the store's ids with the rows (by their number, a flag, ...) -/
+theorem source_startup_cleanup_unconditional :
+    returnsOf "user.deleteAllMessagesMarkedDeleted" = [(["err != nil"], "err"), ([], "user.store.Delete(ids...)")] ∧
+    returnsOf "user.cleanupStaleStoreData" =
+      [(["err != nil"], "err"), (["err != nil"], "err"), ([], "user.store.Delete(idsToDelete...)")] := by
   decide
 
 /-- the collection the cache clean-up of `fn` ranges over (first such loop) -/
@@ -386,6 +422,19 @@ example :
 /-- recovery really removes something: the stale file, the marked row and its file -/
 example : (recover sample).store (.old 7) = none ∧ (recover sample).store (.old 2) = none ∧
     (recover sample).db.rows.length = 1 ∧ (recover sample).store (.old 1) = some (.complete (litOf (.old 1))) := by decide
+
+/-- `leftovers_removed_lost_cache` on a concrete restart state: two acknowledged messages have lost their cache files,
+    one file has no row (as many rows as files, more rows without a file than files without a row): start-up removes
+    the file without a row, keeps the rows and the remaining file, and every row is still fetchable -/
+example :
+    let s : St := { db := { rows := [{ id := .old 1, lit := litOf (.old 1) }, { id := .old 2, lit := litOf (.old 2) },
+                                     { id := .old 3, lit := litOf (.old 3) }] },
+                    store := fun id => if id = .old 1 ∨ id = .old 2 ∨ id = .old 3 then some (.complete (litOf id))
+                                       else if id = .new 1 then some .partialF else none }
+    let s' := loseFiles s [.old 2, .old 3]
+    s'.store (.old 2) = none ∧ s'.store (.old 3) = none ∧ s'.store (.new 1) = some .partialF ∧
+    (recover s').store (.new 1) = none ∧ (recover s').db.rows.length = 3 ∧
+    (recover s').store (.old 1) = some (.complete (litOf (.old 1))) ∧ AllFetchable (recover s') := by decide
 
 /-- death inside `store.Set` of APPEND (file partial, no row yet): recovery removes the file -/
 example : (crashAfter 11 (stepsOf! ("append", 0)) sample).store (.new 1) = some .partialF ∧
